@@ -21,6 +21,20 @@ def stagnant_lift(*nets):
     return False
 
 
+def laminar_under_turbulent_model(opts, *nets):
+    """Colebrook-White and Swamee-Jain are turbulent-flow formulas (Swamee-Jain has a pole at Re ~ 7 and is not monotone
+    below Re ~ 1e3): with them a branch in the laminar range makes the pressure-loss law non-monotone and the solution
+    non-unique, so two calculations of the same system may end in different states. True if that situation is present."""
+    if opts.get("friction_model", "nikuradse") == "nikuradse":
+        return False
+    for n_ in nets:
+        if "res_pipe" in n_ and len(n_.res_pipe) and "reynolds" in n_.res_pipe.columns:
+            re = n_.res_pipe.reynolds.values.astype(float)
+            if np.any(re[~np.isnan(re)] < 2300.0):
+                return True
+    return False
+
+
 def flow_scale(net):
     m = 0.0
     for t in net.keys():
@@ -118,6 +132,11 @@ def compare_nets(a, b, index_maps=None, exact=False, tables=None, skip_cols=(), 
     if not exact:
         tol = dict(tol)
         tol["mfloor"] = tol.get("mfloor", 1e-9) + 4.0 * max(cond_flow_tol(a), cond_flow_tol(b))
+        if any("circ_pump_mass" in n_ and len(n_["circ_pump_mass"]) for n_ in (a, b)):
+            # loop fed by a mass-flow pump: the pressure level of the return side follows from the flow through the free path,
+            # which is a small difference of prescribed flows (pump minus consumers, each kept to ~1e-8): seen 2e-6 bar apart
+            tol["ptol"] = max(tol.get("ptol", 1e-8), 5e-6)
+            tol["ttol"] = max(tol.get("ttol", 1e-6), 1e-4)      # temperatures follow the flow split (6e-6 K seen)
     ta, tb = set(res_tables(a)), set(res_tables(b))
     for t in sorted((ta | tb) if tables is None else tables):
         la = len(a[t]) if t in ta else 0
